@@ -132,6 +132,9 @@ func (self *BinaryConv) doRecurse(ctx context.Context, s string, jp int, desc *t
 					return ret, err
 				}
 				return ret, p.WriteDouble(dv)
+			} else {
+				// a string for a descriptor that takes none must not fall out of the switch (the loop would convert the next value)
+				return ret, newError(meta.ErrDismatchType, "expect "+desc.Type().String()+" but got json string", nil)
 			}
 
 		case types.V_ARRAY:
